@@ -1477,7 +1477,10 @@ class Interp:
         if isinstance(x, Tensor) and x.numel() == 1:
             x = x.els[0]
         if is_sym(x):
-            return '<sym>'
+            if z3.is_int(x) and not PATH_concrete():
+                x = concretize_int(x)          # a symbolic integer turned into text (a name, a key): one path per feasible value
+            else:
+                return '<sym>'
         if isinstance(x, (Obj, ClassInfo, StubClass, Closure, Tensor)):
             return repr(x)
         try:
